@@ -190,7 +190,7 @@ Lemma spec_set_cons k p x d : p <> [] ->
   spec_set (k :: p) x d =
   match lookup k d with
   | Some (Branch d') => insert k (Branch (spec_set p x d')) d
-  | Some (Leaf (VDict dd)) => insert k (Leaf (VDict (vd_set p (val_of_node x) dd))) d
+  | Some (Leaf (VDict dd)) => insert k (Leaf (vd_set p (val_of_node x) (VDict dd))) d
   | _ => insert k (Branch (spec_set p x [])) d
   end.
 Proof. destruct p; [contradiction|reflexivity]. Qed.
@@ -202,8 +202,8 @@ Lemma spec_del_cons k p d : p <> [] ->
                         | Some r => Some (insert k (Branch r) d)
                         | None => None
                         end
-  | Some (Leaf (VDict dd)) => match vd_del p dd with
-                              | Some r => Some (insert k (Leaf (VDict r)) d)
+  | Some (Leaf (VDict dd)) => match vd_del p (VDict dd) with
+                              | Some r => Some (insert k (Leaf r) d)
                               | None => None
                               end
   | _ => None
